@@ -36,7 +36,7 @@ class Scheduler:
         self.timeouts_fired = 0
         self.serials = 0
         # lock-free state changes happen here: pre-empt more often inside them
-        self.hot_functions = {"close", "_response_closed", "_close_connections", "assign_to_connection", "clear_connection"}
+        self.hot_functions = {"close", "_response_closed", "_close_connections", "assign_to_connection", "clear_connection", "has_expired"}
         self.hot_prob = 0.6
         self.hot_enabled = hot
         self.frozen = {}
